@@ -190,23 +190,32 @@ class RuleAlias:
     their keys, prefixed with the foreign rule id). Used where two properties rest on the same facts (e.g. C12's 'modulation and
     its inverse cancel' on C14's constellation/partition rules)."""
 
-    def __init__(self, ck, rule, prefix=""):
+    def __init__(self, ck, rule, prefix="", only=None):
         self._ck, self._rule, self._prefix = ck, rule, prefix
+        self._only = only           # (foreign rule id, key) -> bool: which foreign instances are taken over
         self.explanation = ""
 
     def rule(self, rid, text):
         pass
 
     def inst(self, rule, key, ok, site="", reason="", facts=None, trivial=False):
+        if self._only is not None and not self._only(rule, key):
+            return None
         return self._ck.inst(self._rule, "%s%s:%s" % (self._prefix, rule, key), ok, site, reason, facts, trivial)
 
     def ok(self, rule, key, site="", reason="", facts=None, trivial=False):
+        if self._only is not None and not self._only(rule, key):
+            return None
         return self._ck.ok(self._rule, "%s%s:%s" % (self._prefix, rule, key), site, reason, facts, trivial)
 
     def fail(self, rule, key, site="", reason="", facts=None):
+        if self._only is not None and not self._only(rule, key):
+            return None
         return self._ck.fail(self._rule, "%s%s:%s" % (self._prefix, rule, key), site, reason, facts)
 
     def floor(self, rule, what, count, minimum):
+        if self._only is not None:
+            return None
         return self._ck.floor(self._rule, what, count, minimum)
 
     def assume(self, text):
